@@ -1,4 +1,5 @@
 import Vflow.Model.Shutdown
+import Vflow.Proofs.MainSignal
 import Vflow.Proofs.ShutdownReach
 import Vflow.Gen.ShutdownIR
 import Vflow.Gen.PidFile
@@ -95,12 +96,18 @@ theorem gen_single_sender_and_closer :
                     ("NetflowV9.run", "netflowV9UDPCh"), ("SFlow.run", "sFlowUDPCh")] ∧
     queueClosers = queueSenders := by decide
 
-/-- `main`: signals registered before anything runs; the information model (a global map read by the IPFIX and NetFlow
-v9 decoders) is replaced by `LoadExtElements` BEFORE any run loop is started (F18 repair: it used to be replaced from
-inside `IPFIX.run()`, concurrently with running NetFlow v9 workers); the run loops and, after the signal, the
+/-- `main`, every statement: the signal channel is made with room for one signal and `signal.Notify` is the FIRST
+statement after the declarations (F32 repair: it used to come after `opts = GetOptions()` and `runtime.GOMAXPROCS`, so a
+signal that arrived while the options were being read had its default action); then the options, set-up statements that
+synchronise with nothing; the information model (a global map read by the IPFIX and NetFlow v9 decoders) is replaced by
+`LoadExtElements` BEFORE any run loop is started (F18 repair: it used to be replaced from inside `IPFIX.run()`,
+concurrently with running NetFlow v9 workers), whenever the IPFIX OR the NetFlow v9 listener is switched on (F34 repair: the
+guard used to name the IPFIX switch alone; `C20.gen_load_guard_covers_readers`); the run loops and, after the signal, the
 shutdowns are all counted in the wait group; `main` returns (exit status 0) after `wg.Wait()` -/
 theorem gen_main :
-    mainSteps = [.notifySigintSigterm, .loadElements, .spawnRunsCounted, .spawnStats, .awaitSignal, .spawnShutdownsCounted, .waitAll] := by
+    mainSteps = [.makeSignalChan 1, .notifySigintSigterm, .getOptions, .setUp, .setUp, .setUp,
+                 .loadElementsIf ["IPFIXEnabled", "NetflowV9Enabled"], .setUp,
+                 .spawnRunsCounted, .spawnStats, .awaitSignal, .spawnShutdownsCounted, .waitAll] := by
   decide
 
 /-! ## All interleavings of the generated programs -/
@@ -352,6 +359,181 @@ example : (reachable ⟨ipfixShutdown, ipfixBeforeLoop, ipfixAfterLoop⟩ .none)
     -- the early stop: shutdown() ran to its end before the cache was loaded; the dump was skipped, nothing wiped
     (reachable ⟨ipfixShutdown, ipfixBeforeLoop, ipfixAfterLoop⟩ .none).any (fun s => s.rpc == .exited && s.spc == ipfixShutdown.length && s.dumpSkipped && !s.dumped && !s.wiped && s.closed && !s.panicked) = true := by
   decide +kernel
+
+/-! ## `main` and the signal (F32): a signal at any moment from `main`'s first statement on
+
+`Vflow.Model.MainSignal`: the regenerated `main` runs next to the goroutines it starts (`run()` from `spawnRunsCounted`
+on, `shutdown()` from `spawnShutdownsCounted` on: the programs above) and next to an environment that sends the signal at
+ANY moment, also before `signal.Notify` has run (then the process is `killed`: default action, the wait status is the
+signal).  `SysReach` = every interleaving. Every reachable state is a pair of a state of `main` alone (`amReachable`,
+enumerated) and a protocol state of the enumeration above (`Proofs/MainSignal`); the kernel checks an inductive
+invariant that ties the two parts (`mainInv`) and every claim below on all pairs that satisfy it (`pairCheck`). -/
+
+/-- what ties the state of `main` to the state of a protocol's goroutines: nothing has moved before `run()` is started,
+`shutdown()` has not moved before it is started, it is started after `run()`, and once `wg.Wait()` has returned both
+have returned -/
+def mainInv (p : Prog) (m : MSt) (s : St) : Bool :=
+  (m.runsStarted || decide (s = {})) && (m.stopsStarted || (s.spc == 0 && !s.stop)) && (!m.stopsStarted || m.runsStarted) &&
+  (!m.waited || ((!m.runsStarted || decide (s.rpc = .exited)) && (!m.stopsStarted || s.spc == p.shutdown.length)))
+
+/-- the claims about one state (see `signal_during_options_is_handled`) -/
+def mainGood (ms : List MStep) (p : Prog) (x : Sys) : Bool :=
+  (!x.m.killed || (decide (x.m.killedAt ≤ 1) && !x.m.optsRead && !x.m.caught)) &&
+  (!x.m.optsRead || x.m.handler) &&
+  (!x.m.sigInOptions || (x.m.caught && !x.m.killed)) &&
+  (!(x.m.caught && !x.s.stop && !x.m.over) ||
+    (!(mMain ms (wgDone p x) x.m).isEmpty || (x.m.stopsStarted && !(shutdownSteps p .none x.s).isEmpty))) &&
+  (!(sysNext ms p .none x).isEmpty || (x.m.killed || x.m.exited0)) &&
+  (!x.m.exited0 || (x.m.caught && !x.m.killed && x.m.stopsStarted && decide (x.s.rpc = .exited) &&
+    x.s.spc == p.shutdown.length && x.s.closed)) &&
+  (!x.s.stop || (x.m.caught && x.m.stopsStarted))
+
+/-- the claims about one step -/
+def mainGoodStep (ms : List MStep) (p : Prog) (x t : Sys) : Bool :=
+  (if t.s.rpc = x.s.rpc then decide (ctlMeasure ms p t < ctlMeasure ms p x) else ctlMeasure ms p t == ctlMeasure ms p x) &&
+  (!x.s.stop || decide (sysMeasure ms p t < sysMeasure ms p x))
+
+/-- the invariant holds initially; from every pair (state of `main` alone, protocol state) that satisfies it every step
+leads to a pair that satisfies it, and the claims hold for the pair and for the step -/
+def pairCheck (ms : List MStep) (p : Prog) (n : Nat) : Bool :=
+  mainInv p { sigsLeft := n } {} &&
+  (amReachable ms n).all fun m => (reachable p .none).all fun s =>
+    !mainInv p m s || (mainGood ms p ⟨m, s⟩ && (sysNext ms p .none ⟨m, s⟩).all fun t => mainInv p t.m t.s && mainGoodStep ms p ⟨m, s⟩ t)
+
+/-- the enumeration of `main` alone (one signal; two signals) is complete -/
+theorem main_alone_closed : amClosed mainSteps 1 = true ∧ amClosed mainSteps 2 = true := by decide +kernel
+
+/-- one evaluation for the statements below: all pairs, each protocol, one and two signals -/
+theorem main_pairs_checked : ∀ p ∈ progs, ∀ n ∈ [1, 2], pairCheck mainSteps p n = true := by decide +kernel
+
+/-- every reachable state of `main` + a protocol + one or two signals: its protocol part is a state of the protocol-level
+enumeration, the claims hold for it and for each of its steps -/
+theorem main_all_interleavings :
+    ∀ p ∈ progs, ∀ n ∈ [1, 2], ∀ x, SysReach mainSteps p .none n x →
+      x.s ∈ reachable p .none ∧ mainGood mainSteps p x = true ∧
+      ∀ t ∈ sysNext mainSteps p .none x, mainGoodStep mainSteps p x t = true := by
+  intro p hp n hn x hx
+  have hc := main_pairs_checked p hp n hn
+  simp only [pairCheck, Bool.and_eq_true, List.all_eq_true] at hc
+  have hA : amClosed mainSteps n = true := by
+    simp only [List.mem_cons, List.not_mem_nil, or_false] at hn
+    rcases hn with rfl | rfl
+    · exact main_alone_closed.1
+    · exact main_alone_closed.2
+  have hC := reachable_closed.1 p hp .none (by simp [timing])
+  have unpack : ∀ m ∈ amReachable mainSteps n, ∀ s ∈ reachable p .none, mainInv p m s = true →
+      mainGood mainSteps p ⟨m, s⟩ = true ∧
+      ∀ t ∈ sysNext mainSteps p .none ⟨m, s⟩, mainInv p t.m t.s = true ∧ mainGoodStep mainSteps p ⟨m, s⟩ t = true := by
+    intro m hm s hs hi
+    have h2 := imp_of_not_or (hc.2 m hm s hs) hi
+    rw [Bool.and_eq_true, List.all_eq_true] at h2
+    exact ⟨h2.1, fun t ht => Bool.and_eq_true _ _ ▸ h2.2 t ht⟩
+  have key := sysReach_invariant hA hC (mainInv p) hc.1 (fun m hm s hs hi t ht => ((unpack m hm s hs hi).2 t ht).1) x hx
+  have h2 := unpack x.m key.1 x.s key.2.1 key.2.2
+  exact ⟨key.2.1, h2.1, fun t ht => (h2.2 t ht).2⟩
+
+/-- **C15 (all signal arrival times: a signal during start-up)**: in every interleaving (`SysReach`) of the regenerated
+`main`, the goroutines it starts and a signal (or two) sent at ANY moment,
+* the signal ends the process by its default action only while `main` is at one of its first two statements — the
+  declaration of the channel and `signal.Notify` itself (`killedAt ≤ 1`, `gen_main`) —, never once the options phase has
+  begun; what `GetOptions` leaves behind (the pid file: `optsRead`) implies an installed handler — this is what the
+  start-up stops of the e2e check judge by;
+* a signal that arrives while `main` is reading its options (`sigInOptions`) is caught: it waits in the channel (which
+  has room for it) and is taken by `<-signalCh` once the listeners have been started;
+* once a signal is caught the run ends through the stop protocol with exit status 0: every step other than one of the
+  read loop decreases `ctlMeasure`, which no step of the read loop changes; until `stop` is set such a step is always
+  enabled (`main` is never blocked, then `shutdown()` is not); from then on EVERY step decreases `sysMeasure`; the only
+  states without a successor are "killed" (see above) and "returned from `main`", and `main` returns only after a
+  signal was caught, the shutdowns were started, `run()` has returned having closed its queue and `shutdown()` has
+  returned;
+* on the way nothing panics and `dump_only_after_load` still holds — the shutdown goroutines may well run before
+  `run()` has loaded the cache file (the signal was waiting when the listeners were started): the guarded dump (F27)
+  leaves the file alone; the protocol part of every reachable state is a state of the protocol-level enumeration
+  above, so every statement about `reachable p .none` carries over.
+No assumption on timing or scheduling. What is outside: the instants before `main` runs (exec, start of the Go runtime)
+are the operating system's. -/
+theorem signal_during_options_is_handled :
+    ∀ p ∈ progs, ∀ n ∈ [1, 2], ∀ x, SysReach mainSteps p .none n x →
+      (x.m.killed = true → x.m.killedAt ≤ 1 ∧ x.m.optsRead = false ∧ x.m.caught = false) ∧
+      (x.m.optsRead = true → x.m.handler = true) ∧
+      (x.m.sigInOptions = true → x.m.caught = true ∧ x.m.killed = false) ∧
+      (x.m.caught = true → x.s.stop = false → x.m.over = false →
+        mMain mainSteps (wgDone p x) x.m ≠ [] ∨ (x.m.stopsStarted = true ∧ shutdownSteps p .none x.s ≠ [])) ∧
+      (∀ t ∈ sysNext mainSteps p .none x,
+        (t.s.rpc = x.s.rpc → ctlMeasure mainSteps p t < ctlMeasure mainSteps p x) ∧
+        (t.s.rpc ≠ x.s.rpc → ctlMeasure mainSteps p t = ctlMeasure mainSteps p x) ∧
+        (x.s.stop = true → sysMeasure mainSteps p t < sysMeasure mainSteps p x)) ∧
+      (sysNext mainSteps p .none x = [] → x.m.killed = true ∨ x.m.exited0 = true) ∧
+      (x.m.exited0 = true → x.m.caught = true ∧ x.m.killed = false ∧ x.m.stopsStarted = true ∧
+        x.s.rpc = .exited ∧ x.s.spc = p.shutdown.length ∧ x.s.closed = true) ∧
+      (x.s.stop = true → x.m.caught = true ∧ x.m.stopsStarted = true) ∧
+      x.s ∈ reachable p .none ∧ x.s.panicked = false ∧
+      x.s.wiped = false ∧ (x.s.dumped = true → x.s.cacheSet = true ∧ x.s.loadedFlag = true) ∧ (x.s.loadedFlag = true → x.s.cacheSet = true) := by
+  intro p hp n hn x hx
+  obtain ⟨hs, hg, hst⟩ := main_all_interleavings p hp n hn x hx
+  simp only [mainGood, Bool.and_eq_true] at hg
+  obtain ⟨⟨⟨⟨⟨⟨g1, g2⟩, g3⟩, g4⟩, g5⟩, g6⟩, g7⟩ := hg
+  refine ⟨?_, imp_of_not_or g2, ?_, ?_, ?_, ?_, ?_, ?_, hs, no_send_on_closed_queue p hp x.s hs, dump_only_after_load p hp x.s hs⟩
+  · intro h; have := imp_of_not_or g1 h; simpa [Bool.and_eq_true, and_assoc] using this
+  · intro h; have := imp_of_not_or g3 h; simpa [Bool.and_eq_true] using this
+  · intro h1 h2 h3
+    have := imp_of_not_or g4 (by simp [h1, h2, h3])
+    simpa [List.isEmpty_iff] using this
+  · intro t ht
+    have := hst t ht
+    simp only [mainGoodStep, Bool.and_eq_true] at this
+    refine ⟨fun h => ?_, fun h => ?_, fun h => ?_⟩
+    · simpa [h] using this.1
+    · simpa [h] using this.1
+    · simpa using imp_of_not_or this.2 h
+  · intro h
+    have := imp_of_not_or g5 (by simp [h])
+    simpa using this
+  · intro h; have := imp_of_not_or g6 h; simpa [Bool.and_eq_true, and_assoc] using this
+  · intro h; have := imp_of_not_or g7 h; simpa [Bool.and_eq_true] using this
+
+/-- `main` as it was before the F32 repair (repository commit 3fdfe98, as this generator extracts it from that tree):
+`signal.Notify` after `opts = GetOptions()` and `runtime.GOMAXPROCS(…)` -/
+def f32_old_main : List MStep :=
+  [.makeSignalChan 1, .getOptions, .setUp, .notifySigintSigterm, .setUp, .setUp, .loadElementsIf ["IPFIXEnabled"], .setUp,
+   .spawnRunsCounted, .spawnStats, .awaitSignal, .spawnShutdownsCounted, .waitAll]
+
+/-- regression witness (the code before the F32 repair): a signal that arrives while `main` is reading its options is
+not handled — the process is killed by it —, and so is one that arrives between the return of `GetOptions` (the pid file
+already holds the process's PID: what the e2e start-up stops observe) and `signal.Notify` -/
+theorem f32_old_main_kills :
+    ∀ p ∈ progs,
+      (∃ x, SysReach f32_old_main p .none 1 x ∧ (x.m.sigInOptions && x.m.killed && !x.m.caught && !x.m.optsRead) = true) ∧
+      (∃ x, SysReach f32_old_main p .none 1 x ∧ (x.m.killed && x.m.optsRead && x.m.killedAt == 3 && !x.m.handler) = true) := by
+  have key : ∀ p ∈ progs,
+      (follow f32_old_main p .none ⟨{ sigsLeft := 1 }, {}⟩ [1, 0]).any
+        (fun x => x.m.sigInOptions && x.m.killed && !x.m.caught && !x.m.optsRead) = true ∧
+      (follow f32_old_main p .none ⟨{ sigsLeft := 1 }, {}⟩ [1, 1, 1, 0]).any
+        (fun x => x.m.killed && x.m.optsRead && x.m.killedAt == 3 && !x.m.handler) = true := by decide +kernel
+  exact fun p hp => ⟨exists_of_follow _ _ (key p hp).1, exists_of_follow _ _ (key p hp).2⟩
+
+/-- the repair needs the buffered channel: with `make(chan os.Signal)` a signal relayed while `main` is still reading
+its options finds no room and no receiver and is dropped (package os/signal never blocks), and `main` then waits in
+`<-signalCh` for a signal that has already been sent -/
+theorem unbuffered_channel_loses_signal :
+    ∃ x, SysReach (MStep.makeSignalChan 0 :: mainSteps.drop 1) ⟨ipfixShutdown, ipfixBeforeLoop, ipfixAfterLoop⟩ .none 1 x ∧
+      (x.m.sigInOptions && x.m.lost && !x.m.caught && x.m.sigsLeft == 0 && !x.m.over &&
+        decide (mainSteps[x.m.mpc]? = some MStep.awaitSignal) &&
+        (mMain (MStep.makeSignalChan 0 :: mainSteps.drop 1) true x.m).isEmpty && (mSignal mainSteps x.m).isEmpty) = true :=
+  exists_of_follow [1, 1, 0, 0, 0, 0, 0, 0, 0, 0, 0] _ (by decide +kernel)
+
+/-- non-vacuity: a run in which the signal arrived during the options phase and the collector then came up, stopped and
+returned from `main` exists (IPFIX: with the dump skipped because the cache had not been loaded yet, and with the dump
+taken in a run that armed a read), and so does the run that is killed before `signal.Notify` has returned -/
+example :
+    (∃ x, SysReach mainSteps ⟨ipfixShutdown, ipfixBeforeLoop, ipfixAfterLoop⟩ .none 1 x ∧
+      (x.m.sigInOptions && x.m.exited0 && x.s.dumpSkipped && !x.s.wiped) = true) ∧
+    (∃ x, SysReach mainSteps ⟨ipfixShutdown, ipfixBeforeLoop, ipfixAfterLoop⟩ .none 1 x ∧
+      (x.m.sigInOptions && x.m.exited0 && x.s.dumped && x.s.everRead) = true) ∧
+    (∃ x, SysReach mainSteps ⟨ipfixShutdown, ipfixBeforeLoop, ipfixAfterLoop⟩ .none 1 x ∧ (x.m.killed && x.m.killedAt == 1) = true) :=
+  ⟨exists_of_follow [1, 1, 0, 0, 0, 0, 0, 0, 0, 0, 0, 0, 0, 0, 1, 1, 1, 1, 1, 0, 0, 0, 0, 0, 0, 0, 0, 0] _ (by decide +kernel),
+   exists_of_follow [1, 1, 0, 0, 0, 0, 0, 0, 0, 0, 0, 0, 0, 0, 0, 0, 0, 0, 0, 1, 1, 0, 0, 0, 0, 0, 0, 0, 0, 0] _ (by decide +kernel),
+   exists_of_follow [1, 0] _ (by decide +kernel)⟩
 
 /-! ## The pid file (F28) -/
 
